@@ -25,10 +25,13 @@ def dstepLine (s : DState) (toks : List String) : DState × String :=
     match final.toNat?, parseCsv incs, parseCsv gets with
     | some f, some i, some g => (s, Conc.counterWhy i f g)
     | _, _, _ => (s, "bad-op")
-  | ["conc", "mixed", written, gets] =>
-    match parseCsv written, parseCsv gets with
-    | some w, some g => (s, if Conc.readersOk w g then "accept" else "reject reader-saw-unwritten-value")
-    | _, _ => (s, "bad-op")
+  | ["conc", "mixed", written, gets, qget, qraw] =>
+    match parseCsv written, parseCsv gets, parseCsv qget, parseCsv qraw with
+    | some w, some g, some qg, some qr =>
+      (s, if !Conc.readersOk w g then "reject reader-saw-unwritten-value"
+          else if !Conc.quiescentOk qg qr then "reject cache-differs-from-store-at-quiescence"
+          else "accept")
+    | _, _, _, _ => (s, "bad-op")
   | _ => (s, "bad-op")
 
 end Hive.Typed
